@@ -309,6 +309,7 @@ func runEpochPass(p *Program, ei int, opt *Options, plan bool) *epochRun {
 	e.sim = NewSim(opt.Budget, opt.Sites)
 	e.sim.TraceOn = opt.Trace && plan
 	decimal128.VerifHook = e.sim.Hook
+	decimal128.VerifLockHook = e.sim.LockHook
 	*modePtr = decimal128.RoundingMode(ep.Mode)
 	e.pool = buildPool(&p.Pool)
 	e.poolText = e.pool.render()
@@ -331,6 +332,10 @@ func runEpochPass(p *Program, ei int, opt *Options, plan bool) *epochRun {
 	}
 	e.sim.Run(first)
 	decimal128.VerifHook = nil
+	decimal128.VerifLockHook = nil
+	for _, lc := range e.sim.LockCycles {
+		e.addViol(VLiveness, lc.Kind, lc.Detail, lc.Task, lc.Op)
+	}
 	e.checkShared(nil)
 	// result stability: everything the library returned still reads the same
 	for ti, rs := range e.results {
@@ -402,7 +407,11 @@ func Execute(p *Program, opt *Options) *Outcome {
 		}
 		if opt.Trace {
 			for _, ev := range conc.sim.Trace {
-				out.Trace = append(out.Trace, fmt.Sprintf("#%d %c t%d->t%d op=%d step=%d site=%d", ev.Seq, ev.Kind, ev.From, ev.To, ev.Op, ev.Step, ev.Site))
+				at := ""
+				if ev.Kind == 'p' || ev.Kind == 'k' || ev.Kind == 'l' {
+					at = " at " + SiteName(ev.Site)
+				}
+				out.Trace = append(out.Trace, fmt.Sprintf("#%d %c t%d->t%d op=%d step=%d%s", ev.Seq, ev.Kind, ev.From, ev.To, ev.Op, ev.Step, at))
 			}
 		}
 		viol := append([]Violation{}, ref.viol...)
@@ -523,7 +532,8 @@ func reversePass(p *Program, ei int, opt *Options, conc *epochRun) []Violation {
 	sm := NewSim(opt.Budget, opt.Sites)
 	defer sm.Close()
 	decimal128.VerifHook = sm.Hook
-	defer func() { decimal128.VerifHook = nil }()
+	decimal128.VerifLockHook = sm.LockHook
+	defer func() { decimal128.VerifHook = nil; decimal128.VerifLockHook = nil }()
 	*modePtr = decimal128.RoundingMode(ep.Mode)
 	var pool *poolObjs
 	var poolHash uint64
